@@ -46,6 +46,7 @@ end
 instance : BEq Val := ⟨beq⟩
 
 def isAtom : Val → Bool
+  | .list [] => true
   | .list _ => false
   | .str (_ :: _) => false
   | _ => true
